@@ -135,6 +135,43 @@ def gen(rng, i, quick, suite=None, provs=None):
     return g.script(), {"marks": marks, "kinds": kinds, "talk": talk, "final_members": list(g.in_group), "suite": suite, "providers": provs}
 
 
+def holes_gen(rng, i, quick):
+    """Directed histories for the decryption side of TreeKEM: a full tree of 8-16 leaves, then
+    removals (holes), path commits by random members (which re-key parents above the holes so that
+    receivers below them decrypt with a PARENT key), then adds with an update path that land in
+    the holes (so that the resolution of a copath node holds a parent followed by its freshly
+    added, excluded, unmerged leaves)."""
+    n = 8 + rng.below(9)
+    suite = [1, 2, 3][i % 3]
+    provs = [["openssl"], ["rustcrypto"], ["awslc"], ["openssl", "awslc", "rustcrypto"]][i % 4]
+    g = HistGen(rng, n_pool=min(26, n + 4), name=f"c01-holes-{i}", suite=suite, providers=provs, storage="mem")
+    g.start()
+    marks, kinds = [], {"holes": 1}
+    g.round(n_props=0, by_value_adds=n - 1, by_value_removes=0, observe="all", path_required=rng.chance(1, 2), app=False)
+    marks.append((len(g.ops) - 1, g.epoch))
+    for cycle in range(2 if quick else 4):
+        for _ in range(1 + rng.below(3)):
+            g.round(n_props=0, by_value_adds=0, by_value_removes=1, observe="all", path_required=True, app=False)
+            marks.append((len(g.ops) - 1, g.epoch))
+        for _ in range(1 + rng.below(3)):
+            g.round(n_props=0, by_value_adds=0, by_value_removes=0, observe="all", path_required=True, app=False)
+            marks.append((len(g.ops) - 1, g.epoch))
+        g.round(n_props=0, by_value_adds=1 + rng.below(3), by_value_removes=rng.below(2), observe="all", path_required=True, app=False)
+        marks.append((len(g.ops) - 1, g.epoch))
+    ops = g.ops
+    talk = []
+    for s_ in g.in_group:
+        aid = g.fresh("z")
+        ops.append({"op": "app", "who": s_, "id": aid, "data": "7a"})
+        for m in g.in_group:
+            if m != s_:
+                ops.append({"op": "deliver", "to": m, "msg": aid})
+                talk.append(len(ops) - 1)
+    ops.append({"op": "observe", "who": g.in_group[0], "observe": "all"})
+    marks.append((len(ops) - 1, g.epoch))
+    return g.script(), {"marks": marks, "kinds": kinds, "talk": talk, "final_members": list(g.in_group), "suite": suite, "providers": provs}
+
+
 def judge(items, recs):
     """Agreement oracle over finished histories: (failing, stats)."""
     failing = []
@@ -210,6 +247,7 @@ def main(run, args):
         return
     quick = run.tier == "quick"
     items = [gen(rng, i, quick) for i in range(24 if quick else 240)]
+    items += [holes_gen(rng, i, quick) for i in range(32 if quick else 320)]
     recs = run_scripts([x[0] for x in items], timeout=3000)
     failing, stats = judge(items, recs)
     run.obligation("all members agree after every commit of every history; epoch +1; all-to-all decryption", not failing and stats["member_comparisons"] > 0)
@@ -218,7 +256,7 @@ def main(run, args):
     run.cov.update({
         "evaluations": stats["member_comparisons"] + stats["cross_decryptions"],
         "distinct_nontrivial": stats["commits"],
-        "rule": "histories of 6-12 (thorough 18) parties and 10 (17) commits; each commit is drawn from: ordinary round (0-3 by-reference add/update/remove proposals delivered in shuffled order, 0-2 by-value adds, 0-1 by-value removals, random path_required / tree extension / single Welcome / encrypted handshake, echo or apply), removal round, PSK (by value or by reference), group-context-extension, custom proposal, identity change, external-commit join, external-commit resync; cipher suite 1/2/3 and provider mix by history index; all-to-all application messages at the end.",
+        "rule": "PLUS 32 (320) directed hole histories: full tree of 8-16 leaves, then cycles of 1-3 removals with path, 1-3 empty path commits by random members (re-keying parents above the holes), and an add of 1-3 members with path that lands in the holes. Random histories: histories of 6-12 (thorough 18) parties and 10 (17) commits; each commit is drawn from: ordinary round (0-3 by-reference add/update/remove proposals delivered in shuffled order, 0-2 by-value adds, 0-1 by-value removals, random path_required / tree extension / single Welcome / encrypted handshake, echo or apply), removal round, PSK (by value or by reference), group-context-extension, custom proposal, identity change, external-commit join, external-commit resync; cipher suite 1/2/3 and provider mix by history index; all-to-all application messages at the end.",
         "samples": [],
         "stats": stats,
         "histories": len(items),
